@@ -19,7 +19,7 @@ pub const ENTRY: Entry = Entry {
     rule: "counting oracle on the decoded bus trace of the real driver. (1) every fill_solid / fill_contiguous / clear of the C01 and \
            C04 rectangle alphabets: at most one window set-up (CASET+RASET+RAMWR), exactly one when a pixel is written. (2) with \
            `batch`: draw_iter on every in-bounds stream of the C03 alphabets (all streams of length <= 4 on a 3x3 display; all words \
-           of <= 3 run/block/pixel symbols crossing the capacities, also on rotated non-square displays) needs no more window set-ups than the sum over maximal \
+           of <= 3 run/block/pixel symbols crossing the capacities, also on rotated non-square displays; single calls with more than 65535 pixels) needs no more window set-ups than the sum over maximal \
            left-to-right runs of ceil(len / R), and never more than one per pixel, where the row capacity R is measured from the \
            driver's behaviour on one long run and must be >= 2. (3) the real SpiInterface sends a burst of b bytes in at most floor(b / \
            usable) + 1 transactions (usable = floor(L/N)*N) for every call of the C06 alphabet, alone and after every other pixel call over the same byte alphabet; (4) the same bound for every burst (pixel bytes after one memory-write-start) below the real Display on SPI - the in-bounds drawing alphabet, repeated same-colour fills, and fills of more than 65535 pixels on buffers holding a non-power-of-two number of pixels (counting mode). Only counts are observed, so any \
@@ -171,6 +171,19 @@ fn run(ctx: &Ctx) -> Part {
         })
         .reduce(Acc::new, Acc::merge);
     acc = acc.merge(a);
+    // one draw_iter call with more than 65535 in-bounds pixels (127 rasters of the 130x4 display; runs straddle every
+    // multiple of 65535): counts that do not fit 16 bits must not cost extra window set-ups
+    {
+        let cfg = Cfg::tiny(130, 4, false, Transport::RecSerial, (130, 4, 0, 0), 0);
+        for reps in [127usize, 253] {
+            let syms: Vec<Sym> = (0..reps).map(|_| Sym::Block { x: 0, y: 0, w: 130, h: 4 }).collect();
+            check_stream(ctx, &mut acc, &cfg, Pixels::Syms { syms, base: 0x0100 }, r64);
+            acc.count("long_streams", 1);
+        }
+        let cfg = Cfg::tiny(3, 104, false, Transport::RecSerial, (3, 104, 0, 0), 1);
+        let syms: Vec<Sym> = (0..215).map(|_| Sym::Block { x: 0, y: 0, w: 104, h: 3 }).collect();
+        check_stream(ctx, &mut acc, &cfg, Pixels::Syms { syms, base: 0x0100 }, r64);
+    }
     let coarse_cfgs = [
         (true, Cfg::tiny(130, 4, false, Transport::RecSerial, (130, 4, 0, 0), 0)),
         (false, Cfg::tiny(3, 104, false, Transport::RecSerial, (3, 104, 0, 0), 0)),
